@@ -153,7 +153,7 @@ Theorem k1_witness_has_code_2 :
   exists e, encode_frame f_append_batch (k1_request true) = Some e /\
     C27_monitor (C27Case 0 e true (PChAppendBatch (Some (k1_request true)) (decode_frame f_append_batch e)) false
                          [] 0 0) = 2.
-Proof. eexists. split; vm_compute; reflexivity. Qed.
+Proof. eexists. split; [vm_compute; reflexivity|]. vm_compute. reflexivity. Qed.
 
 (* ---- slot FSM commands ------------------------------------------------------------------------------------------- *)
 
